@@ -11,6 +11,7 @@ import (
 	"strings"
 	"time"
 
+	"github.com/ethereum/go-ethereum/common"
 	"github.com/jackc/pgx/v4/pgxpool"
 	pubsub "github.com/libp2p/go-libp2p-pubsub"
 	pubsubpb "github.com/libp2p/go-libp2p-pubsub/pb"
@@ -26,6 +27,7 @@ import (
 	"github.com/shutter-network/rolling-shutter/rolling-shutter/keyperimpl/shutterservice"
 	snapshotkeyper "github.com/shutter-network/rolling-shutter/rolling-shutter/keyperimpl/snapshot"
 	"github.com/shutter-network/rolling-shutter/rolling-shutter/medley/broker"
+	syncevent "github.com/shutter-network/rolling-shutter/rolling-shutter/medley/chainsync/event"
 	"github.com/shutter-network/rolling-shutter/rolling-shutter/medley/configuration"
 	"github.com/shutter-network/rolling-shutter/rolling-shutter/medley/encodeable/keys"
 	"github.com/shutter-network/rolling-shutter/rolling-shutter/p2p"
@@ -278,15 +280,56 @@ func (w *World) Node(fl string, st *State) *Node {
 		n.Direct["VsTrigger"] = h
 		addCore(n.M, h)
 	case "access":
-		storage := gnosisaccessnode.NewStorage()
-		for _, a := range st.AnKeys {
-			storage.AddEonKey(a.Eon, w.Mat.Sets[a.Set].EonPublicKey())
-		}
+		acfg := &gnosisaccessnode.Config{InstanceID: st.Inst, MaxNumKeysPerMessage: st.MaxKeys}
+		viaCallbacks := true
 		for _, a := range st.AnKSets {
-			storage.AddKeyperSet(a.Eon, &obskeyperdatabase.KeyperSet{KeyperConfigIndex: int64(a.Eon),
-				Keypers: addrStrs(w.Mat, a.Keypers), Threshold: a.Threshold})
+			for _, k := range a.Keypers {
+				if k < 0 {
+					viaCallbacks = false // an entry that is not an address cannot come from a keyper set event
+				}
+			}
 		}
-		h := gnosisaccessnode.NewDecryptionKeysHandler(&gnosisaccessnode.Config{InstanceID: st.Inst, MaxNumKeysPerMessage: st.MaxKeys}, storage)
+		var h p2p.MessageHandler
+		if viaCallbacks {
+			// the state is built through the node's own chain sync callbacks, in the order the state names
+			an := gnosisaccessnode.New(acfg)
+			addKeys := func() {
+				for _, a := range st.AnKeys {
+					if err := an.VerifOnNewEonKey(w.Ctx, &syncevent.EonPublicKey{Eon: a.Eon, Key: w.Mat.Sets[a.Set].EonPublicKey().Marshal()}); err != nil {
+						panic(err)
+					}
+				}
+			}
+			addSets := func() {
+				for _, a := range st.AnKSets {
+					var members []common.Address
+					for _, k := range a.Keypers {
+						members = append(members, w.Mat.Addrs[k])
+					}
+					if err := an.VerifOnNewKeyperSet(w.Ctx, &syncevent.KeyperSet{Eon: a.Eon, Members: members, Threshold: uint64(a.Threshold)}); err != nil {
+						panic(err)
+					}
+				}
+			}
+			if st.AnKeysFirst {
+				addKeys()
+				addSets()
+			} else {
+				addSets()
+				addKeys()
+			}
+			h = an.VerifDecryptionKeysHandler()
+		} else {
+			storage := gnosisaccessnode.NewStorage()
+			for _, a := range st.AnKeys {
+				storage.AddEonKey(a.Eon, w.Mat.Sets[a.Set].EonPublicKey())
+			}
+			for _, a := range st.AnKSets {
+				storage.AddKeyperSet(a.Eon, &obskeyperdatabase.KeyperSet{KeyperConfigIndex: int64(a.Eon),
+					Keypers: addrStrs(w.Mat, a.Keypers), Threshold: a.Threshold})
+			}
+			h = gnosisaccessnode.NewDecryptionKeysHandler(acfg, storage)
+		}
 		n.Direct["VsAccessKeys"] = h
 		n.M.AddMessageHandler(h)
 	default:
